@@ -65,6 +65,8 @@ def run_property(prop: str, tier: str, seed: int, evidence_dir=None, quiet=False
         rep.stats["encoder_call_sites"] = check_encoding_forwarding(idx, rep, files)
         from .rules.forwarding import check_swapped_arguments
         rep.stats["positional_call_sites"] = check_swapped_arguments(idx, rep, files)
+        from .rules.overrides import check_overrides_restored
+        rep.stats["temporary_overrides"] = check_overrides_restored(idx, rep, files)
         from .rules.fresh import check_operator_results
         rep.stats["out_of_place_operators"] = check_operator_results(idx, rep, files)
         from .rules.forwarding import check_catchall_parameters
